@@ -17,6 +17,9 @@ pub struct Tf {
     pub vdup: Option<u16>,
     pub adup: Option<u16>,
     pub swap_ut: bool,
+    /// how many more repetitions of variants / attributes / tlang variants (long tail: size and
+    /// count limits applied before de-duplication only show with many repeats)
+    pub reps: (u8, u8, u8),
     pub defect: Option<(u8, u16, u8)>,
 }
 
@@ -44,8 +47,12 @@ fn s_tf() -> impl Strategy<Value = Tf> + Sync {
         proptest::option::weighted(0.3, any::<u16>()),
         any::<bool>(),
         proptest::option::weighted(0.25, (0u8..5, any::<u16>(), 0u8..2)),
+        {
+            let rep = || prop_oneof![12 => Just(0u8), 3 => 1u8..4, 2 => 4u8..16, 1 => 16u8..70];
+            (rep(), rep(), rep())
+        },
     )
-        .prop_map(|(case2, sep2, perm, vdup, adup, swap_ut, defect)| Tf { case2, sep2, perm, vdup, adup, swap_ut, defect })
+        .prop_map(|(case2, sep2, perm, vdup, adup, swap_ut, defect, reps)| Tf { case2, sep2, perm, vdup, adup, swap_ut, reps, defect })
 }
 
 const BAD: [&str; 2] = ["a.bcd", "toolongxxx"];
@@ -99,6 +106,20 @@ fn transform(a: &Ast, t: &Tf) -> (Ast, bool) {
             moved = true;
         }
     }
+    let repeat = |list: &mut Vec<String>, n: u8, salt: u16| {
+        let len0 = list.len();
+        if len0 == 0 {
+            return false;
+        }
+        for k in 0..n as usize {
+            let r = t.perm[(k + salt as usize) % 24] as usize ^ (k * 40503);
+            let x = list[(r & 0xffff) * len0 >> 16].clone();
+            let pos = ((r >> 3) & 0xffff) * (list.len() + 1) >> 16;
+            list.insert(pos, x);
+        }
+        n > 0
+    };
+    moved |= repeat(&mut b.id.variants, t.reps.0, 1);
     let (v, m) = permute(&a.attrs, &t.perm[6..10]);
     b.attrs = v;
     moved |= m;
@@ -110,6 +131,7 @@ fn transform(a: &Ast, t: &Tf) -> (Ast, bool) {
             moved = true;
         }
     }
+    moved |= repeat(&mut b.attrs, t.reps.1, 7);
     let (v, m) = permute(&a.kws, &t.perm[10..14]);
     b.kws = v;
     moved |= m;
@@ -120,6 +142,7 @@ fn transform(a: &Ast, t: &Tf) -> (Ast, bool) {
         let (v, m) = permute(&tl.variants, &t.perm[18..22]);
         b.tlang.as_mut().unwrap().variants = v;
         moved |= m;
+        moved |= repeat(&mut b.tlang.as_mut().unwrap().variants, t.reps.2, 13);
     }
     if t.swap_ut && a.has_u() && a.has_t() {
         b.u_first = !a.u_first;
